@@ -149,6 +149,10 @@ def seg_vs_fold(recs, P, En, bt, variant: str):
     seg = LT.build_segment(recs)
     if variant == "plain":
         out = seg.track(b)
+        again = seg.track(b)            # the same Segment object once more: tracking may not leave anything behind
+        d2 = LT.beams_differ(again, out)
+        if d2 is not None:
+            return "second track of the same Segment differs from the first: " + d2
     elif variant == "flattened":
         out = seg.flattened().track(b)
     elif variant == "cut":
@@ -163,7 +167,7 @@ def seg_vs_fold(recs, P, En, bt, variant: str):
 def falsifier(ctx, n: int) -> None:
     rep, rng = ctx.report, ctx.rng
     for _ in range(n):
-        flat = LT.gen_lattice(rng, 8)
+        flat = LT.gen_lattice(rng, 8, dup_names=0.15)
         recs = LT.nest(rng, flat)
         En = E.energy(rng)
         P = LT.gen_particles(rng, 16)
